@@ -1,5 +1,5 @@
 """The verdict logic of one ./check run for a trace-based property (DESIGN.md section 7)."""
-import hashlib, json, re, sys, time
+import hashlib, json, os, re, sys, time
 from pathlib import Path
 from . import core, trace
 
@@ -147,7 +147,7 @@ def run_trace_property(prop, families, tier, seed, replay=None, assumptions=None
                     {"family": fam.name, "header": header, "impl": lines, "model": ml, "at": list(div)})
 
     # broken obligation / correspondence with no monitor rejection: widen the search, then report
-    if broken and not violations and ok and not replay:
+    if broken and not violations and ok and not replay and not os.environ.get("VERIF_NO_WIDEN"):
         for fam in families:
             args = [f"--seed={seed + 7919}"] + [a.replace("--scripts=", "--scripts=") for a in fam.thorough_args]
             r = trace.execute(prop, fam.name, args, "search-" + getattr(fam, "tag", fam.name))
